@@ -1,12 +1,27 @@
 import ColaVerif.Model.Expr
 
 /-!
-# Root-level clauses are clauses of the expression
+# Root-level clauses and the clauses of the expression: the exact relation
 
-`Ex.rootClauses re e` (what the harness uses to attribute a disagreement to the sub-expression
-where it first appears) only names clauses that `Ex.clauses re e` — the hypothesis of the C03
-theorems, `C03_clauses_decide` — lists as well; and a clause of the expression is the root clause
-of one of its nodes.
+`Ex.rootClauses re e` names the clauses the ROOT node of `e` is an instance of; `Ex.clauses re e`
+(the hypothesis of the C03 theorems, `C03_clauses_decide`) names the clauses some node of `e` is an
+instance of.  Proved here, both directions:
+
+* `rootClauses_sub`: a root clause of `e` is a clause of `e`;
+* `clauses_sub_root`: a clause of `e` is a root clause of one of the nodes of `e`;
+* `clauses_eq_root`: `clauses re e` is, clause by clause, "some node has it as a root clause"
+  (`hasRootClause_sdiv`, `hasRootClause_lossy`: the two node predicates are exactly `isSdiv`,
+  `lossyNode re`);
+* `rootClauses_nil_of_clauses_nil`: an expression with no clause has no root clause.
+
+What the harness does with this (`c03.py attribute()`): it finds, by RUNNING code model and matrix
+expression on every sub-expression, the nodes at which the two first differ, and accepts a
+recorded clause there only if the driver's `rootClauses` of that node is non-empty — a run-time
+check on each such node, whose failure is a VIOLATION ("instance of no recorded clause").  No
+theorem "a first difference is always at a root-clause node" is claimed or used; what IS used is
+`rootClauses_sub` (a clause attributed at a node is a clause of every expression containing the
+node - for such expressions `C03_sound_partial` makes no claim) together with `clauses_sub_root`
+(an expression the theorems exclude does contain a node where the attribution can happen).
 -/
 
 namespace Ex
@@ -31,6 +46,164 @@ theorem rootClauses_sub (re : R → R) (e : Ex R) : ∀ c ∈ rootClauses re e, 
     · rw [if_pos (anyNode_root _ e hl)]; simpa [hl] using h
     · simp [hl] at h
 
+mutual
+theorem anyNode_mono (p q : Ex R → Bool) (hpq : ∀ d, p d = true → q d = true) : ∀ (e : Ex R),
+    anyNode p e = true → anyNode q e = true
+  | op A => by simp only [anyNode]; exact hpq _
+  | arr .. => by simp only [anyNode]; exact hpq _
+  | add x y => by
+    simp only [anyNode, Bool.or_eq_true]
+    rintro ((h | h) | h)
+    · exact .inl (.inl (hpq _ h))
+    · exact .inl (.inr (anyNode_mono p q hpq x h))
+    · exact .inr (anyNode_mono p q hpq y h)
+  | sub x y => by
+    simp only [anyNode, Bool.or_eq_true]
+    rintro ((h | h) | h)
+    · exact .inl (.inl (hpq _ h))
+    · exact .inl (.inr (anyNode_mono p q hpq x h))
+    · exact .inr (anyNode_mono p q hpq y h)
+  | matmul x y => by
+    simp only [anyNode, Bool.or_eq_true]
+    rintro ((h | h) | h)
+    · exact .inl (.inl (hpq _ h))
+    · exact .inl (.inr (anyNode_mono p q hpq x h))
+    · exact .inr (anyNode_mono p q hpq y h)
+  | kron x y => by
+    simp only [anyNode, Bool.or_eq_true]
+    rintro ((h | h) | h)
+    · exact .inl (.inl (hpq _ h))
+    · exact .inl (.inr (anyNode_mono p q hpq x h))
+    · exact .inr (anyNode_mono p q hpq y h)
+  | kronsum x y => by
+    simp only [anyNode, Bool.or_eq_true]
+    rintro ((h | h) | h)
+    · exact .inl (.inl (hpq _ h))
+    · exact .inl (.inr (anyNode_mono p q hpq x h))
+    · exact .inr (anyNode_mono p q hpq y h)
+  | neg x => by
+    simp only [anyNode, Bool.or_eq_true]
+    rintro (h | h)
+    · exact .inl (hpq _ h)
+    · exact .inr (anyNode_mono p q hpq x h)
+  | smul c x => by
+    simp only [anyNode, Bool.or_eq_true]
+    rintro (h | h)
+    · exact .inl (hpq _ h)
+    · exact .inr (anyNode_mono p q hpq x h)
+  | muls x c => by
+    simp only [anyNode, Bool.or_eq_true]
+    rintro (h | h)
+    · exact .inl (hpq _ h)
+    · exact .inr (anyNode_mono p q hpq x h)
+  | divs x c => by
+    simp only [anyNode, Bool.or_eq_true]
+    rintro (h | h)
+    · exact .inl (hpq _ h)
+    · exact .inr (anyNode_mono p q hpq x h)
+  | sdiv c x => by
+    simp only [anyNode, Bool.or_eq_true]
+    rintro (h | h)
+    · exact .inl (hpq _ h)
+    · exact .inr (anyNode_mono p q hpq x h)
+  | addz x => by
+    simp only [anyNode, Bool.or_eq_true]
+    rintro (h | h)
+    · exact .inl (hpq _ h)
+    · exact .inr (anyNode_mono p q hpq x h)
+  | lazify x => by
+    simp only [anyNode, Bool.or_eq_true]
+    rintro (h | h)
+    · exact .inl (hpq _ h)
+    · exact .inr (anyNode_mono p q hpq x h)
+  | densify x => by
+    simp only [anyNode, Bool.or_eq_true]
+    rintro (h | h)
+    · exact .inl (hpq _ h)
+    · exact .inr (anyNode_mono p q hpq x h)
+  | nodispatch x => by
+    simp only [anyNode, Bool.or_eq_true]
+    rintro (h | h)
+    · exact .inl (hpq _ h)
+    · exact .inr (anyNode_mono p q hpq x h)
+  | bdiag xs => by
+    simp only [anyNode, Bool.or_eq_true]
+    rintro (h | h)
+    · exact .inl (hpq _ h)
+    · exact .inr (anyNodeL_mono p q hpq xs h)
+  | sumList xs => by
+    simp only [anyNode, Bool.or_eq_true]
+    rintro (h | h)
+    · exact .inl (hpq _ h)
+    · exact .inr (anyNodeL_mono p q hpq xs h)
+theorem anyNodeL_mono (p q : Ex R → Bool) (hpq : ∀ d, p d = true → q d = true) : ∀ (xs : List (Ex R)),
+    anyNodeL p xs = true → anyNodeL q xs = true
+  | [] => by simp [anyNodeL]
+  | x :: xs => by
+    simp only [anyNodeL, Bool.or_eq_true]
+    rintro (h | h)
+    · exact .inl (anyNode_mono p q hpq x h)
+    · exact .inr (anyNodeL_mono p q hpq xs h)
+end
+
+/-- the node predicate "`c` is one of the root clauses of this node" -/
+def hasRootClause (re : R → R) (c : String) (d : Ex R) : Bool := decide (c ∈ rootClauses re d)
+
+/-- a clause of the expression is a root clause of one of its nodes (the converse of
+`rootClauses_sub`, lifted to all nodes) -/
+theorem clauses_sub_root (re : R → R) (e : Ex R) (c : String) (hc : c ∈ clauses re e) :
+    anyNode (hasRootClause re c) e = true := by
+  simp only [clauses, List.mem_append] at hc
+  rcases hc with h | h
+  · by_cases hs : anyNode isSdiv e = true
+    · rw [if_pos hs] at h
+      refine anyNode_mono _ _ ?_ e hs
+      intro d hd
+      simp only [List.mem_singleton] at h
+      simp [hasRootClause, rootClauses, hd, h]
+    · simp [hs] at h
+  · by_cases hs : anyNode (lossyNode re) e = true
+    · rw [if_pos hs] at h
+      refine anyNode_mono _ _ ?_ e hs
+      intro d hd
+      simp only [List.mem_singleton] at h
+      simp [hasRootClause, rootClauses, hd, h]
+    · simp [hs] at h
+
+theorem hasRootClause_sdiv (re : R → R) (d : Ex R) :
+    hasRootClause re "scalar-divided-by-operator" d = isSdiv d := by
+  by_cases hs : isSdiv d = true <;> by_cases hl : lossyNode re d = true <;>
+    simp [hasRootClause, rootClauses, hs, hl]
+
+theorem hasRootClause_lossy (re : R → R) (d : Ex R) :
+    hasRootClause re "complex-scalar-real-operator" d = lossyNode re d := by
+  by_cases hs : isSdiv d = true <;> by_cases hl : lossyNode re d = true <;>
+    simp [hasRootClause, rootClauses, hs, hl]
+
+/-- EXACT relation between the two clause lists: the clauses of an expression are the root
+clauses of its nodes, clause by clause. -/
+theorem clauses_eq_root (re : R → R) (e : Ex R) :
+    clauses re e =
+      (if anyNode (hasRootClause re "scalar-divided-by-operator") e
+        then ["scalar-divided-by-operator"] else []) ++
+      (if anyNode (hasRootClause re "complex-scalar-real-operator") e
+        then ["complex-scalar-real-operator"] else []) := by
+  have h1 : hasRootClause re "scalar-divided-by-operator" = (isSdiv : Ex R → Bool) :=
+    funext (hasRootClause_sdiv re)
+  have h2 : hasRootClause re "complex-scalar-real-operator" = lossyNode re :=
+    funext (hasRootClause_lossy re)
+  rw [h1, h2, clauses]
+
+/-- an expression with no clause has no node with a root clause -/
+theorem rootClauses_nil_of_clauses_nil (re : R → R) (e : Ex R) (h : clauses re e = []) :
+    rootClauses re e = [] := by
+  rcases hr : rootClauses re e with _ | ⟨c, t⟩
+  · rfl
+  · have := rootClauses_sub re e c (by rw [hr]; exact List.mem_cons_self)
+    rw [h] at this; cases this
 end Ex
 
 #print axioms Ex.rootClauses_sub
+#print axioms Ex.clauses_sub_root
+#print axioms Ex.clauses_eq_root
+#print axioms Ex.rootClauses_nil_of_clauses_nil
